@@ -451,7 +451,7 @@ def _run_job(job):
         L.materialise(spath, u, sstore, srefs)
         _layout(spath, job.get("slayout", "loose"))
         if job["op"] != "clone":
-            L.materialise(rpath, u, r0, rrefs)
+            L.materialise(rpath, u, r0, rrefs, head="refs/heads/master" if job.get("rhead_unborn") else None)
             _layout(rpath, job.get("rlayout", "loose"))
             before = (_objs(r0), _objs(set(rrefs.values())), [])
         else:
@@ -1090,7 +1090,126 @@ def push_gitclient(job, u, spath, rpath, rec):
         _finish_capture(rec, u, pack)
 
 
+# ---- the porcelain commands (what a user calls); they also decide which refs are written
+def _remote_url(job, path):
+    via = job.get("via", "path")
+    if via == "tcp":
+        return f"git://127.0.0.1:{_server().port}{path}"
+    if via == "http":
+        return f"http://127.0.0.1:{_server().http()}{path}"
+    return path
+
+
+def _add_origin(gitdir, url):
+    with open(os.path.join(gitdir, "config"), "a") as f:
+        f.write(f'[remote "origin"]\n\turl = {url}\n\tfetch = +refs/heads/*:refs/remotes/origin/*\n')
+
+
+class _Served:
+    def __init__(self, job, rec):
+        self.on = job.get("via", "path") != "path"
+        self.rec = rec
+
+    def __enter__(self):
+        if self.on:
+            _server().begin()
+        return self
+
+    def __exit__(self, *a):
+        if self.on:
+            _slog, _raw, serr = _server().end(wait=False)
+            if serr:
+                self.rec["info"]["server_error"] = serr[-1][:200]
+        return False
+
+
+def fetch_porcelain(job, u, spath, rpath, rec):
+    """porcelain.fetch from the configured remote "origin": asks for every remote ref, imports the
+    remote's branches and tags"""
+    from dulwich import porcelain
+    if not job.get("step"):
+        _add_origin(rpath, _remote_url(job, spath))
+    sink = io.BytesIO()
+    with _Served(job, rec):
+        try:
+            porcelain.fetch(rpath, "origin", outstream=sink, errstream=sink, depth=job.get("depth") or None)
+            rec["ok"] = 1
+        except Exception as e:
+            rec["err"] = repr(e)[:300]
+    rec["wants"] = rec["mwants"] = rec["srefs"]
+
+
+def pull_porcelain(job, u, spath, rpath, rec):
+    """porcelain.pull of selected refs into a non-bare repository with an unborn HEAD (so that no
+    merge commit is created and every ref value stays inside the universe)"""
+    from dulwich import porcelain
+    work = rpath + ".work"
+    os.makedirs(work)
+    os.rename(rpath, os.path.join(work, ".git"))
+    gd = os.path.join(work, ".git")
+    try:
+        with open(os.path.join(gd, "config")) as f:
+            cfg = f.read().replace("bare = true", "bare = false")
+        with open(os.path.join(gd, "config"), "w") as f:
+            f.write(cfg)
+        _add_origin(gd, _remote_url(job, spath))
+        names = {tuple(v): k for k, v in _sender_refs(job).items()}
+        specs = [names[tuple(w)].encode() for w in job["wants"]] if not job.get("default_refspec") else None
+        sink = io.BytesIO()
+        with _Served(job, rec):
+            try:
+                porcelain.pull(work, "origin", refspecs=specs, outstream=sink, errstream=sink, force=True)
+                rec["ok"] = 1
+            except Exception as e:
+                rec["err"] = repr(e)[:300]
+    finally:
+        os.rename(gd, rpath)
+        shutil.rmtree(work, ignore_errors=True)
+    if job.get("default_refspec"):
+        rec["wants"] = rec["mwants"] = [L.jobj(("c", min(job["sh"])))]      # HEAD of the sender
+
+
+def clone_porcelain(job, u, spath, rpath, rec):
+    from dulwich import porcelain
+    sink = io.BytesIO()
+    with _Served(job, rec):
+        try:
+            r = porcelain.clone(_remote_url(job, spath), rpath, bare=True, errstream=sink, depth=job.get("depth") or None)
+            r.close()
+            rec["ok"] = 1
+        except Exception as e:
+            rec["err"] = repr(e)[:300]
+    rec["wants"] = rec["mwants"] = rec["srefs"]
+    rec["hk"], rec["haves"] = 1, []
+
+
+def push_porcelain(job, u, spath, rpath, rec):
+    from dulwich import porcelain
+    names = {tuple(v): k for k, v in _sender_refs(job).items()}
+    specs = []
+    for k, w in enumerate(job["wants"]):
+        src = names[tuple(w)]
+        dst = src if src.startswith("refs/tags/") else f"refs/heads/p{k}"
+        specs.append(f"{src}:{dst}".encode())
+    sink = io.BytesIO()
+    with _Served(job, rec):
+        try:
+            res = porcelain.push(spath, _remote_url(job, rpath), specs, outstream=sink, errstream=sink)
+            st = getattr(res, "ref_status", None) or {}
+            bad = {k: v for k, v in st.items() if v is not None}
+            rec["ok"] = int(not bad)
+            if bad:
+                rec["err"] = repr(bad)[:300]
+        except Exception as e:
+            rec["err"] = repr(e)[:300]
+    rec["srefs"] = rec["wants"]
+
+
 TRANSPORTS = {
+    ("fetch", "porcelain"): fetch_porcelain,
+    ("fetch", "porcelain-pull"): pull_porcelain,
+    ("clone", "porcelain"): clone_porcelain,
+    ("push", "porcelain"): push_porcelain,
     ("fetch", "local"): fetch_local,
     ("fetch", "localpack"): fetch_local_pack,
     ("fetch", "mofapi"): fetch_mofapi,
